@@ -90,6 +90,9 @@ def run_unit(name, keep_smt2=2):
     t0 = time.time()
     res = UnitResult(name=name, status="ok")
     EXTRACTED_LOG.clear()
+    from . import extract as _ex0
+
+    del _ex0.AUTOINLINED[:]
     try:
         paths = core.explore(u.run, unit_name=name, max_paths=u.max_paths, props=u.props)
     except ExtractionError as e:
@@ -148,6 +151,11 @@ def run_unit(name, keep_smt2=2):
     res.obligations = [_ob_dict(ob) for ob in obs]
     if res.status == "ok" and len(obs) < u.min_obligations:
         res.status, res.message = "undecided", f"vacuity guard: {len(obs)} obligations generated, at least {u.min_obligations} expected"
+    from . import extract as _ex
+
+    for ex in _ex.AUTOINLINED:
+        EXTRACTED_LOG.setdefault(f"{ex.relpath}:{ex.qualname} [auto-inlined, R9]", (ex.text, ex.sha))
+    del _ex.AUTOINLINED[:]
     res.extracted = {k: v[0] for k, v in EXTRACTED_LOG.items()}
     res.sources = {k: v[1] for k, v in EXTRACTED_LOG.items()}
     res.wall_s = time.time() - t0
